@@ -608,6 +608,18 @@ def real_overlap_cli(ctx, res):
            "pipelines": {"p": [{"task": "ta", "name": "a"}, {"task": "tb", "name": "b"}, {"task": "tc", "name": "c"}, {"task": "td", "name": "d", "depends_on": ["a", "b", "c"]}]}}
     jobs.append({"id": len(jobs), "files": {"cfg.json": clilib.jcfg(doc)}, "argv": ["-c", "cfg.json", "--raw", "run", "pipeline", "p"], "keep": ["m.a", "m.b", "m.c", "m.d"], "timeout": 40,
                  "shape": "slow-condition", "final": "m.d"})
+    # the START of an execution context (its `up`, its `before` hook) of one stage waits for a mark that the other, independent stage leaves:
+    # bringing one task's context up must not hold up the other task
+    for hook in ("up", "before"):
+        hwait = 'i=0; while [ ! -e "$PROJ/m.b" ] && [ $i -lt 80 ]; do sleep 0.05; i=$((i+1)); done; [ -e "$PROJ/m.b" ]'
+        doc = {"contexts": {"cxa": {hook: [hwait]}},
+               "tasks": {"ta": {"context": "cxa", "command": ['touch "$PROJ/m.a"']}, "tb": {"command": [wait % ("b", "a", "a")]}, "tc": {"command": ['touch "$PROJ/m.c"']},
+                         "tz": {"command": ["true"]}},
+               # b becomes eligible one polling pass after a (behind the instant stage z): a is already inside its context's start by then
+               "pipelines": {"p": [{"task": "ta", "name": "a"}, {"task": "tz", "name": "z"}, {"task": "tb", "name": "b", "depends_on": ["z"]},
+                                   {"task": "tc", "name": "c", "depends_on": ["a", "b"]}]}}
+        jobs.append({"id": len(jobs), "files": {"cfg.json": clilib.jcfg(doc)}, "argv": ["-c", "cfg.json", "--raw", "run", "pipeline", "p"], "keep": ["m.a", "m.b", "m.c"], "timeout": 40,
+                     "shape": "context-%s-waits-for-the-other-stage" % hook})
     out = clilib.run_cli(ctx.workdir + "/realov", jobs, timeout=40, workers=4)
     for j in jobs:
         r = out[j["id"]]
